@@ -5,11 +5,11 @@ set -u
 patch=$(readlink -f "$1"); id=$2; tier=${3:-quick}; rev=${4:-}
 cd /repo || exit 2
 if [ -n "$(git status --porcelain --untracked-files=no)" ]; then echo "/repo not clean" >&2; exit 2; fi
-if ! git apply $rev --3way "$patch" 2>/tmp/mutant-apply.log && ! git apply $rev "$patch" 2>>/tmp/mutant-apply.log; then echo "patch does not apply: $(cat /tmp/mutant-apply.log | head -3)"; git checkout -q -- . ; git reset -q; exit 3; fi
+if ! git apply $rev --3way "$patch" 2>/tmp/mutant-apply.log && ! git apply $rev "$patch" 2>>/tmp/mutant-apply.log; then echo "patch does not apply: $(cat /tmp/mutant-apply.log | head -3)"; git reset -q --hard HEAD; exit 3; fi
 git reset -q
 cd /verif
 out=$(VERIF_SEED=${VERIF_SEED:-1} ./check "$id" "$tier" 2>&1); rc=$?
-cd /repo && git checkout -q -- . && git clean -fdq -e /dev/null 2>/dev/null
+cd /repo && git reset -q --hard HEAD
 echo "$out" | grep -E "^(property=|VIOLATION|INCONCLUSIVE|KNOWN-FINDING)" | head -8
 echo "$out" | grep -E "^  class=" | sort | uniq -c | head -8
 echo "exit=$rc"
